@@ -113,7 +113,7 @@ func run(cfg *hv.RunCfg) error {
 			mode = 2
 			rep.Hist("mode:skipped(outside value universe)")
 		}
-		cf.Add(fmt.Sprintf("mkCase %s\n  %s\n  %d %s %s", ctxs, es, mode, vs, hv.CoqDiagSummaries(diags)))
+		cf.Add(fmt.Sprintf("mkCase %s\n  %s\n  %d %s %s\n  %s", ctxs, es, mode, vs, hv.CoqDiagSummaries(diags), hv.CoqTraversals(expr.Variables(), info)))
 		rep.Idx(j.text + "   ## ctx: " + strings.ReplaceAll(ctxs, "\n", " "))
 		rep.Count(j.text+ctxs, len(j.text) > 3)
 		if diags.HasErrors() {
